@@ -251,6 +251,27 @@ Section Link.
       by (rewrite <- I3, map_map; reflexivity).
     reflexivity.
   Qed.
+
+  (* the batch loop's decision on the collected results of a step, when a node asked for a rerun or a nested graph
+     interrupted (call site 2 of Model/CheckpointAsmLib.v: everything collected, nothing pending, no before nodes):
+     the translated classification loop followed by the translated handler *)
+  Theorem decide_rerun_is_translated :
+    forall (fold : CS -> list (N * V) -> res CS) (getr : CS -> res (CS * list (N * V))) (before_cfg after_cfg : list N)
+           (isnil : V -> bool) (ph : bool -> V) (isStream : bool) (cs : CS) (gs1 : GS) pout,
+    ph isStream = zero ->
+    negb (is_nil (subcps R) && is_nil (reruns R)) = true ->
+    exists a,
+      resolve_run (Gen.CheckpointAssembly.resolve_task V SCP SINFO after_cfg) R (mk_racc [] [] []) = inr a /\
+      of_sres (@decide V CS GS SCP SINFO zero fold getr before_cfg after_cfg cs gs1 R)
+      = Some (Gen.CheckpointAssembly.rerun_assembly V CS GS SCP SINFO isnil fold ph isStream (Some gs1)
+                (ra_rerun a) (ra_subs a) (ra_after a) (ctasks cin onone R) [] (ptasks pout []) cs).
+  Proof.
+    intros fold getr before_cfg after_cfg isnil ph isStream cs gs1 pout Hph Hne.
+    eexists. split.
+    - rewrite resolve_tasks_is_model, Hff. reflexivity.
+    - simpl. unfold decide. rewrite Hff, Hne.
+      symmetry. apply (rerun_assembly_is_rerun_interrupt isnil fold ph isStream cs gs1 pout [] [] _ Hph).
+  Qed.
 End Link.
 
 (* non-vacuity: a step whose collected results are a completed node (2), a node asking for a rerun (3) and a nested
@@ -278,3 +299,4 @@ Print Assumptions gen_tail_agrees.
 Print Assumptions gen_call_sites_agree.
 Print Assumptions plain_assembly_is_plain_interrupt.
 Print Assumptions rerun_assembly_is_rerun_interrupt.
+Print Assumptions decide_rerun_is_translated.
